@@ -562,7 +562,7 @@ func immMethod(tn, method string, ta *types.TypeList) *intrinsicDef {
 				panic(unsupported("immutable.MapIterator." + method))
 			}}
 	case "MapBuilder":
-		return &intrinsicDef{name: desc,
+		return &intrinsicDef{name: desc, allocs: method == "Iterator",
 			heaps: func(g *VCGen, c *ssa.CallCommon) []string {
 				switch method {
 				case "Set", "Delete", "Map":
@@ -596,6 +596,12 @@ func immMethod(tn, method string, ta *types.TypeList) *intrinsicDef {
 					return g.imGet(inf, cur, inf.kabs(k.T), v)
 				case "Len":
 					return []SpecVal{g.define(v, fmt.Sprintf("(%s.len %s)", inf.sort, cur))}
+				case "Iterator":
+					// the library returns an iterator over the builder's current map
+					iheap, st := g.mapIterHeap(inf)
+					r := g.newRef()
+					g.setHeap(g.cur, iheap, fmt.Sprintf("(store %s %s (mk!%s %s ((as const (Array %s Bool)) false) 0))", g.heapTerm(g.cur, iheap), r, st, cur, inf.ks))
+					return []SpecVal{{r, "Int", v.Type()}}
 				case "Map":
 					res := g.freshConst("built", inf.sort)
 					g.assume(fmt.Sprintf("(= %s %s)", res, cur))
